@@ -1,9 +1,9 @@
 package checks
 
 import (
-	"crypto/tls"
 	"bytes"
 	"context"
+	"crypto/tls"
 	"encoding/json"
 	"fmt"
 	"io"
@@ -46,6 +46,9 @@ type c13Scn struct {
 	// derives itself; 2 the same with ONE caller-supplied tls.Config that does not name the server (InsecureSkipVerify)
 	// and is shared by all connections of the Client
 	TLS int `json:"tls,omitempty"`
+	// Pool: goroutines that use the Client's connection-per-caller API: DialToSMTPClientWithContext, SendWithSMTPClient
+	// on the connection they got, CloseWithSMTPClient
+	Pool int `json:"pool,omitempty"`
 }
 
 type c13Case struct {
@@ -54,26 +57,30 @@ type c13Case struct {
 }
 
 var c13Scenarios = []c13Scn{
-	{"2xSend(1)", 2, 0, 1, "", 0, false, false, 0},
-	{"2xSend(2)", 2, 0, 2, "", 0, false, false, 0},
-	{"3xSend(1)", 3, 0, 1, "", 0, false, false, 0},
-	{"2xDialAndSend(1)", 0, 2, 1, "", 0, false, false, 0},
-	{"Send+DialAndSend", 1, 1, 1, "", 0, false, false, 0},
-	{"2xSend+DialAndSend", 2, 1, 1, "", 0, false, false, 0},
-	{"2xDialAndSend(1)+LOGIN", 0, 2, 1, "LOGIN", 0, false, false, 0},
-	{"2xDialAndSend(1)+SCRAM", 0, 2, 1, "SCRAM-SHA-256", 0, false, false, 0},
-	{"Send+DialAndSend+AUTODISCOVER", 1, 1, 1, "AUTODISCOVER", 0, false, false, 0},
-	{"2xSend(1)/rcpt-refused", 2, 0, 1, "", 1, false, false, 0},
-	{"2xSend(2)/data-refused", 2, 0, 2, "", 3, false, false, 0},
-	{"Send+DialAndSend/dialer-rcpt-refused", 1, 1, 1, "", 1, false, false, 0},
-	{"Send+DialAndSend/dialer-rcpt-refused+rset-fails", 1, 1, 1, "", 2, false, false, 0},
-	{"Send+DialAndSend/dialer-data-refused", 1, 1, 1, "", 3, false, false, 0},
-	{"2xDialAndSend(1)/rcpt-refused+rset-fails", 0, 2, 1, "", 2, false, false, 0},
-	{"Send+DialAndSend+debuglog", 1, 1, 1, "", 0, true, false, 0},
-	{"2xDialAndSend(1)+debuglog", 0, 2, 1, "", 0, true, false, 0},
-	{"2xDialAndSend(1)+quoted-local-parts", 0, 2, 1, "", 0, false, true, 0},
-	{"Send+DialAndSend+quoted-local-parts", 1, 1, 1, "", 0, false, true, 0},
-	{"2xDialAndSend(1)+starttls(caller's config without server name)", 0, 2, 1, "", 0, false, false, 2},
+	{"2xSend(1)", 2, 0, 1, "", 0, false, false, 0, 0},
+	{"2xSend(2)", 2, 0, 2, "", 0, false, false, 0, 0},
+	{"3xSend(1)", 3, 0, 1, "", 0, false, false, 0, 0},
+	{"2xDialAndSend(1)", 0, 2, 1, "", 0, false, false, 0, 0},
+	{"Send+DialAndSend", 1, 1, 1, "", 0, false, false, 0, 0},
+	{"2xSend+DialAndSend", 2, 1, 1, "", 0, false, false, 0, 0},
+	{"2xDialAndSend(1)+LOGIN", 0, 2, 1, "LOGIN", 0, false, false, 0, 0},
+	{"2xDialAndSend(1)+SCRAM", 0, 2, 1, "SCRAM-SHA-256", 0, false, false, 0, 0},
+	{"Send+DialAndSend+AUTODISCOVER", 1, 1, 1, "AUTODISCOVER", 0, false, false, 0, 0},
+	{"2xSend(1)/rcpt-refused", 2, 0, 1, "", 1, false, false, 0, 0},
+	{"2xSend(2)/data-refused", 2, 0, 2, "", 3, false, false, 0, 0},
+	{"Send+DialAndSend/dialer-rcpt-refused", 1, 1, 1, "", 1, false, false, 0, 0},
+	{"Send+DialAndSend/dialer-rcpt-refused+rset-fails", 1, 1, 1, "", 2, false, false, 0, 0},
+	{"Send+DialAndSend/dialer-data-refused", 1, 1, 1, "", 3, false, false, 0, 0},
+	{"2xDialAndSend(1)/rcpt-refused+rset-fails", 0, 2, 1, "", 2, false, false, 0, 0},
+	{"Send+DialAndSend+debuglog", 1, 1, 1, "", 0, true, false, 0, 0},
+	{"2xDialAndSend(1)+debuglog", 0, 2, 1, "", 0, true, false, 0, 0},
+	{"2xDialAndSend(1)+quoted-local-parts", 0, 2, 1, "", 0, false, true, 0, 0},
+	{"Send+DialAndSend+quoted-local-parts", 1, 1, 1, "", 0, false, true, 0, 0},
+	{"2xDialAndSend(1)+starttls(caller's config without server name)", 0, 2, 1, "", 0, false, false, 2, 0},
+	{"2xDialToSMTPClient+SendWithSMTPClient", 0, 0, 1, "", 0, false, false, 0, 2},
+	{"Send+DialToSMTPClient+SendWithSMTPClient", 1, 0, 1, "", 0, false, false, 0, 1},
+	{"DialAndSend+DialToSMTPClient+SendWithSMTPClient+LOGIN", 0, 1, 1, "LOGIN", 0, false, false, 0, 1},
+	{"2xDialToSMTPClient+SendWithSMTPClient/rcpt-refused+rset-fails", 0, 0, 1, "", 2, false, false, 0, 2},
 }
 
 var c13Blocked int32
@@ -92,7 +99,7 @@ type c13World struct {
 func c13Build(r *vf.Run, scn c13Scn, hook func(string)) *c13World {
 	w := &c13World{target: -1, quoted: scn.Quoted}
 	if scn.Fault > 0 {
-		w.target = (scn.Senders + scn.Dialers - 1) * scn.PerCall
+		w.target = (scn.Senders + scn.Dialers + scn.Pool - 1) * scn.PerCall
 	}
 	w.rig = &hx.Rig{Mk: func(n int) *refsmtp.Conn {
 		caps := []string{"8BITMIME"}
@@ -162,7 +169,7 @@ func c13Build(r *vf.Run, scn c13Scn, hook func(string)) *c13World {
 		return nil
 	}
 	w.cl = cl
-	w.threads = scn.Senders + scn.Dialers
+	w.threads = scn.Senders + scn.Dialers + scn.Pool
 	w.errs = make([]error, w.threads)
 	id := 0
 	for t := 0; t < w.threads; t++ {
@@ -182,6 +189,18 @@ func c13Build(r *vf.Run, scn c13Scn, hook func(string)) *c13World {
 		t := t
 		if t < scn.Senders {
 			w.bodies = append(w.bodies, func() { w.errs[t] = cl.Send(w.msgs[t]...) })
+		} else if t >= scn.Senders+scn.Dialers {
+			w.bodies = append(w.bodies, func() {
+				sc, err := cl.DialToSMTPClientWithContext(context.Background())
+				if err != nil {
+					w.errs[t] = err
+					return
+				}
+				w.errs[t] = cl.SendWithSMTPClient(sc, w.msgs[t]...)
+				if cerr := cl.CloseWithSMTPClient(sc); cerr != nil && w.errs[t] == nil {
+					w.errs[t] = cerr
+				}
+			})
 		} else {
 			w.bodies = append(w.bodies, func() { w.errs[t] = cl.DialAndSendWithContext(context.Background(), w.msgs[t]...) })
 		}
@@ -310,13 +329,14 @@ func c13RacePass(iter int) int {
 	rng := rand.New(rand.NewSource(int64(iter)))
 	var rmu sync.Mutex
 	for it := 0; it < iter; it++ {
-		for _, scn := range []c13Scn{{"2", 2, 0, 1, "", 0, false, false, 0}, {"8", 6, 2, 1, "", 0, false, false, 0}, {"64", 48, 16, 1, "", 0, false, false, 0}, {"3x2", 3, 0, 2, "", 0, false, false, 0}, {"dial", 0, 4, 1, "", 0, false, false, 0},
-			{"dial+login", 0, 6, 1, "LOGIN", 0, false, false, 0}, {"mixed+scram", 3, 5, 1, "SCRAM-SHA-256", 0, false, false, 0}, {"mixed+auto", 2, 6, 1, "AUTODISCOVER", 0, false, false, 0},
-			{"mixed+debuglog", 4, 4, 1, "", 0, true, false, 0}, {"dial+login+debuglog", 0, 6, 1, "LOGIN", 0, true, false, 0},
-			{"mixed+quoted-local-parts", 3, 6, 1, "", 0, false, true, 0},
-			{"dial+starttls", 0, 6, 1, "", 0, false, false, 1}, {"dial+starttls(caller's config without server name)", 0, 6, 1, "", 0, false, false, 2},
-			{"mixed+starttls+login(caller's config without server name)", 2, 4, 1, "LOGIN", 0, false, false, 2}} {
-			if scn.Senders+scn.Dialers > 16 && it%4 != 0 {
+		for _, scn := range []c13Scn{{"2", 2, 0, 1, "", 0, false, false, 0, 0}, {"8", 6, 2, 1, "", 0, false, false, 0, 0}, {"64", 48, 16, 1, "", 0, false, false, 0, 0}, {"3x2", 3, 0, 2, "", 0, false, false, 0, 0}, {"dial", 0, 4, 1, "", 0, false, false, 0, 0},
+			{"dial+login", 0, 6, 1, "LOGIN", 0, false, false, 0, 0}, {"mixed+scram", 3, 5, 1, "SCRAM-SHA-256", 0, false, false, 0, 0}, {"mixed+auto", 2, 6, 1, "AUTODISCOVER", 0, false, false, 0, 0},
+			{"mixed+debuglog", 4, 4, 1, "", 0, true, false, 0, 0}, {"dial+login+debuglog", 0, 6, 1, "LOGIN", 0, true, false, 0, 0},
+			{"mixed+quoted-local-parts", 3, 6, 1, "", 0, false, true, 0, 0},
+			{"dial+starttls", 0, 6, 1, "", 0, false, false, 1, 0}, {"dial+starttls(caller's config without server name)", 0, 6, 1, "", 0, false, false, 2, 0},
+			{"mixed+starttls+login(caller's config without server name)", 2, 4, 1, "LOGIN", 0, false, false, 2, 0},
+			{"mixed+own-connections", 2, 2, 1, "", 0, false, false, 0, 4}, {"own-connections+scram+starttls", 0, 0, 1, "SCRAM-SHA-256", 0, false, false, 1, 6}} {
+			if scn.Senders+scn.Dialers+scn.Pool > 16 && it%4 != 0 {
 				continue
 			}
 			jitter := func(string) {
@@ -362,7 +382,7 @@ func init() {
 	vf.Register(&vf.Check{
 		ID: "C13", Title: "concurrent use of one Client is safe",
 		Run: func(r *vf.Run) {
-			r.SetRule("scenarios {2×Send(1 msg), 2×Send(2 msgs), 3×Send(1), 2×DialAndSend, Send+DialAndSend, 2×Send+DialAndSend, 2×DialAndSend with LOGIN / SCRAM authentication, Send+DialAndSend with auto-discovered authentication; scenarios with debug logging through the library's own logger, scenarios whose envelope addresses need quoting, scenarios in which every connection negotiates STARTTLS (real crypto/tls handshakes) with one caller-supplied tls.Config that does not name the server, and scenarios in which the server refuses one message (a recipient with or without a failing clean-up RSET, or DATA) of one thread while the other threads' messages must be unaffected} on one Client; ALL interleavings at visible operations (every Lock/RLock of go-mail's mutexes through the sync shim, every connection Read/Write/Close) up to the preemption bound, under a cooperative scheduler that models Go's RWMutex (a waiting writer blocks new readers); oracle per schedule: protocol monitor on every connection, commit log = every message the server did not refuse exactly once with its own envelope and complete content (a refused one never), exactly the calls without a refused message return nil, no deadlock; plus a separate free-running pass of the same bodies under the Go race detector (2..64 goroutines, jittered I/O) — that pass samples schedules; distinct by (scenario, schedule)")
+			r.SetRule("scenarios {2×Send(1 msg), 2×Send(2 msgs), 3×Send(1), 2×DialAndSend, Send+DialAndSend, 2×Send+DialAndSend, 2×DialAndSend with LOGIN / SCRAM authentication, Send+DialAndSend with auto-discovered authentication; scenarios with debug logging through the library's own logger, scenarios whose envelope addresses need quoting, scenarios in which goroutines use the connection-per-caller API (DialToSMTPClientWithContext, SendWithSMTPClient, CloseWithSMTPClient) next to each other and next to Send / DialAndSend, scenarios in which every connection negotiates STARTTLS (real crypto/tls handshakes) with one caller-supplied tls.Config that does not name the server, and scenarios in which the server refuses one message (a recipient with or without a failing clean-up RSET, or DATA) of one thread while the other threads' messages must be unaffected} on one Client; ALL interleavings at visible operations (every Lock/RLock of go-mail's mutexes through the sync shim, every connection Read/Write/Close) up to the preemption bound, under a cooperative scheduler that models Go's RWMutex (a waiting writer blocks new readers); oracle per schedule: protocol monitor on every connection, commit log = every message the server did not refuse exactly once with its own envelope and complete content (a refused one never), exactly the calls without a refused message return nil, no deadlock; plus a separate free-running pass of the same bodies under the Go race detector (2..64 goroutines, jittered I/O) — that pass samples schedules; distinct by (scenario, schedule)")
 			r.Assume("releases are not preemption points (sound for data-race-free code; races are the job of the separate -race pass)", "the race pass is sampling, not exhaustive: the 'no data race under any schedule' clause is only decided for the schedules it happens to run")
 			bound := 2
 			if r.Thorough {
@@ -430,7 +450,7 @@ func init() {
 			for _, scn := range c13Scenarios {
 				scn := scn
 				b := bound
-				if scn.Senders+scn.Dialers >= 3 {
+				if scn.Senders+scn.Dialers+scn.Pool >= 3 {
 					b = bound - 1 // three threads: one preemption less (quick 1, thorough 2)
 				}
 				vf.ExploreShard(r, b, "C13 "+scn.Name, si, sn, func(c *vf.Chooser) {
